@@ -96,19 +96,25 @@ def _holder():
 
 
 def _gray_strategy(tier):
+    # strategies are built once, not per draw
+    rels = st.sampled_from(["g2b_b2g", "b2g_g2b", "consecutive"])
+    holder, shapes = _holder(), _shape(tier)
+    bitcls = st.sampled_from([16, 32, 62, 62])
+    ints = {b: _ints(b) for b in set(DTYPE_BITS.values()) | {16, 32, 62}}
+
     @st.composite
     def build(draw):
-        rel = draw(st.sampled_from(["g2b_b2g", "b2g_g2b", "consecutive"]))
-        kind, dtype = draw(_holder())
+        rel = draw(rels)
+        kind, dtype = draw(holder)
         cap = 62 if dtype == "pyint" else DTYPE_BITS[dtype]
         # a class of at most 16 / 32 / cap bits, so that small-value cases
         # exist on their own (not hidden behind a large element)
-        bits = min(cap, draw(st.sampled_from([16, 32, 62, 62])))
-        shape = draw(_shape(tier)) if kind == "array" else []
+        bits = min(cap, draw(bitcls))
+        shape = draw(shapes) if kind == "array" else []
         n = 1
         for s in shape:
             n *= s
-        vals = draw(st.lists(_ints(bits), min_size=n, max_size=n))
+        vals = [draw(ints[bits]) for _ in range(n)]
         if rel == "consecutive":        # n+1 must be representable as well
             top = 2 ** bits - 2
             vals = [min(v, top) for v in vals]
@@ -117,28 +123,39 @@ def _gray_strategy(tier):
     return build()
 
 
+def _mask(bits):
+    return st.one_of(
+        st.just(0),
+        st.integers(0, bits - 1).map(lambda k: 1 << k),
+        st.integers(0, 2 ** bits - 1),
+        st.just(2 ** bits - 1))
+
+
 def _biterr_strategy(tier):
+    holder, shapes = _holder(), _shape(tier)
+    bitcls = st.sampled_from([4, 12, 32, 62])
+    allbits = set(DTYPE_BITS.values()) | {4, 12, 32, 62}
+    ints = {b: _ints(b) for b in allbits}
+    # second operand: a xor mask (few bits / any), stays in [0, 2^bits)
+    masks = {b: _mask(b) for b in allbits}
+    bools = st.booleans()
+    axes = {k: st.integers(0, k - 1) for k in (1, 2, 3)}
+
     @st.composite
     def build(draw):
-        kind, dtype = draw(_holder())
+        kind, dtype = draw(holder)
         cap = 62 if dtype == "pyint" else DTYPE_BITS[dtype]
-        bits = min(cap, draw(st.sampled_from([4, 12, 32, 62])))
-        shape = draw(_shape(tier)) if kind == "array" else []
+        bits = min(cap, draw(bitcls))
+        shape = draw(shapes) if kind == "array" else []
         n = 1
         for s in shape:
             n *= s
-        a = draw(st.lists(_ints(bits), min_size=n, max_size=n))
-        # second operand: a xor mask (few bits / any), stays in [0, 2^bits)
-        mask = st.one_of(
-            st.just(0),
-            st.integers(0, bits - 1).map(lambda k: 1 << k),
-            st.integers(0, 2 ** bits - 1),
-            st.just(2 ** bits - 1))
-        d = draw(st.lists(mask, min_size=n, max_size=n))
+        a = [draw(ints[bits]) for _ in range(n)]
+        d = [draw(masks[bits]) for _ in range(n)]
         b = [x ^ y for x, y in zip(a, d)]
         axis = None
-        if kind == "array" and draw(st.booleans()):
-            axis = draw(st.integers(0, len(shape) - 1))
+        if kind == "array" and draw(bools):
+            axis = draw(axes[len(shape)])
         return dict(part="biterr", kind=kind, dtype=dtype, shape=shape,
                     a=a, b=b, axis=axis)
     return build()
